@@ -2,6 +2,7 @@
 mod util;
 mod c04;
 mod c09;
+mod sparql;
 
 fn main() {
     let argv: Vec<String> = std::env::args().collect();
@@ -14,6 +15,7 @@ fn main() {
     match argv[1].as_str() {
         "c04" => c04::main(&a),
         "c09" => c09::main(&a),
+        "sparql" => sparql::main(&a),
         other => {
             eprintln!("unknown driver {other}");
             std::process::exit(2);
